@@ -306,7 +306,7 @@ def post_dual(ctx, call):
 def install(ctx):
     import geometer.curve as C
 
-    core.wrap_method(C.QuadricTensor, "intersect", post_intersect)
+    core.wrap_method_everywhere(C.QuadricTensor, "intersect", post_intersect)  # every class of the tree that defines intersect itself
     core.wrap_method(C.QuadricTensor, "tangent", post_tangent_quadric)
     core.wrap_method(C.Conic, "tangent", post_conic_tangent)
     core.wrap_method(C.QuadricTensor, "is_tangent", post_is_tangent)
